@@ -6,7 +6,7 @@ use regex::Regex;
 use serde::Deserialize;
 use std::{
     fmt,
-    path::{Path, PathBuf},
+    path::{Component, Path, PathBuf},
 };
 use swc_atoms::Atom;
 use swc_core::{
@@ -267,8 +267,11 @@ impl ValidIsographTemplateLiteral {
                 PathBuf::from(format!("{}", file_to_artifact.display()).replace('\\', "/"));
         }
 
-        // TODO Identify if this is needed
-        if file_to_artifact.starts_with(ISOGRAPH_FOLDER) {
+        // A module specifier that does not start with ./ or ../ is not a relative path
+        if !matches!(
+            file_to_artifact.components().next(),
+            Some(Component::CurDir | Component::ParentDir)
+        ) {
             file_to_artifact = PathBuf::from(format!("./{}", file_to_artifact.display()));
         }
 
